@@ -247,6 +247,55 @@ pub fn check_eq_hash() -> (Vec<Finding>, u64) {
 /// Values that can be assembled through the public constructors but never come out of the
 /// parser (an attribute-less TXT, empty opaque data, parameter-less SVCB, window-less NSEC, ...):
 /// their clones and owned forms must still be equal, hash equally and serialise identically.
+/// One type (class) code written in two ways - the named variant and the catch-all variant
+/// carrying the same number - as a bare TYPE / QTYPE, as RData::Empty(..) and inside a record:
+/// whenever two such values compare equal they hash equally and a HashSet holding one contains
+/// the other.
+pub fn check_code_representations() -> (Vec<Finding>, u64) {
+    use simple_dns::rdata::RData;
+    use simple_dns::{Name, ResourceRecord, CLASS, TYPE};
+    let case = json!({"kind": "code-representations"});
+    let r = guarded(|| {
+        let mut bad: Vec<(String, String)> = Vec::new();
+        let mut n = 0u64;
+        let mut judge = |what: &str, eq: bool, ha: u64, hb: u64, contained: bool, code: u16, bad: &mut Vec<(String, String)>| {
+            if eq && ha != hb {
+                bad.push((format!("{}-equal-but-hash-differs", what), format!("code {}: the two representations compare equal and hash to {:#x} / {:#x}", code, ha, hb)));
+            }
+            if eq && !contained {
+                bad.push((format!("{}-equal-but-not-found", what), format!("code {}: a HashSet holding one representation does not contain the equal other one", code)));
+            }
+        };
+        for code in 0..=65535u16 {
+            let named = TYPE::from(code);
+            let raw = TYPE::Unknown(code);
+            n += 1;
+            let set: std::collections::HashSet<TYPE> = [named].into_iter().collect();
+            judge("type", named == raw, h(&named), h(&raw), set.contains(&raw), code, &mut bad);
+            if code < 300 || code % 257 == 0 {
+                let (ra, rb) = (RData::Empty(named), RData::Empty(raw));
+                let set: std::collections::HashSet<RData> = [ra.clone()].into_iter().collect();
+                judge("rdata-empty", ra == rb, h(&ra), h(&rb), set.contains(&rb), code, &mut bad);
+                let rec = |rd: RData<'static>| ResourceRecord::new(Name::new_unchecked("r.example"), CLASS::IN, 5, rd);
+                let (ca, cb) = (rec(ra), rec(rb));
+                let set: std::collections::HashSet<ResourceRecord> = [ca.clone()].into_iter().collect();
+                judge("record-empty", ca == cb, h(&ca), h(&cb), set.contains(&cb), code, &mut bad);
+            }
+            if bad.len() > 8 {
+                break;
+            }
+        }
+        (bad, n)
+    });
+    match r {
+        Err(pn) => (vec![finding(format!("C16|code-representations|{}", pn.sig()), format!("{:?}", pn), case)], 0),
+        Ok((bad, n)) => {
+            let mut seen = std::collections::BTreeSet::new();
+            (bad.into_iter().filter(|(t, _)| seen.insert(t.clone())).map(|(t, d)| finding(format!("C16|code-representations|{}", t), d, case.clone())).collect(), n)
+        }
+    }
+}
+
 pub fn check_odd_values() -> (Vec<Finding>, u64) {
     use simple_dns::rdata::{self as rd, RData};
     use simple_dns::{CharacterString, Name, CLASS};
@@ -576,6 +625,16 @@ pub fn run(ctx: &Ctx) {
     t.nontrivial += n;
     t.outcome("odd-values");
     ctx.violations(f);
+    {
+        let (f, n) = check_code_representations();
+        let mut t = Tally::default();
+        t.evals += n;
+        t.nontrivial += n;
+        t.outcome("eq-hash");
+        ctx.merge(t);
+        ctx.violations(f);
+        ctx.space("one code, two representations: every 16-bit TYPE code as TYPE::from(code) and TYPE::Unknown(code) (bare, as RData::Empty and inside a record): equal => same hash and found in a HashSet", n, "complete");
+    }
     ctx.space("constructible-but-never-parsed values (attribute-less TXT, empty NULL, parameter-less SVCB/HTTPS, window-less NSEC, option-less OPT, empty tails): clone / into_owned / extend-after-copy", n, "complete");
     let mut total = 0u64;
     for nip in 0..=4usize {
@@ -619,6 +678,9 @@ pub fn run(ctx: &Ctx) {
 }
 
 pub fn replay(case: &Value) -> Vec<Finding> {
+    if case["kind"].as_str() == Some("code-representations") {
+        return check_code_representations().0;
+    }
     match case["kind"].as_str().unwrap_or("") {
         "packet" => match serde_json::from_value::<RefPacket>(case["packet"].clone()) {
             Ok(p) => check_packet(&p),
